@@ -35,6 +35,7 @@ a084387 C20 C20.result
 bb6a35c C08 C08.position
 c15ed5e C08 C08.reset
 8c82aca C10 C10.direction
+1da8b63 C09 C09.bounds
 LIST
 git -C /repo worktree remove --force $WT
 rm -rf /tmp/fixcheck-ev
